@@ -329,6 +329,7 @@ func UnpackEncryptedCollectionArchiveWithOptions(reader io.Reader, outputDir str
 	}
 
 	if _, err := io.Copy(io.Discard, archiveReader); err != nil {
+		removeDirectoryEntries(outputDir)
 		return fmt.Errorf("finish encrypted archive stream: %w", err)
 	}
 
